@@ -8,7 +8,7 @@ from pathlib import Path
 import numpy as np
 import z3
 
-from symx.core import SBool, SInt, cur, fresh_int, is_sym, zb, zi
+from symx.core import SBool, SInt, cur, fresh_int, is_sym, zb, zi, Inconclusive
 from symx.harness import SNP, stubs_description
 
 ID = "C14"
@@ -335,6 +335,10 @@ WINDOWS = [[-65540, -65532], [-4100, -4092], [-5, 5], [4090, 4100], [65530, 6554
 def jobs(tier, seed):
     q = tier == "quick"
     out = [dict(h="sortkey", mode="shell"), dict(h="sortkey", mode="total")]
+    # the empty sequence is a sequence over the vocabulary too
+    out.append(dict(h="decode", tok="modular", L=0))
+    for mode_, g_ in (("AOTP_UT_uniform", 3), ("AOTP_UT_rasterized", 2), ("AOTP_CTT_indexed", 4)):
+        out.append(dict(h="decode", tok=mode_, g=g_, L=0))
     out.append(dict(h="decode", tok="modular", L=1, max_seconds=3300))
     out.append(dict(h="decode", tok="AOTP_UT_uniform", g=3, L=2))
     out.append(dict(h="decode", tok="AOTP_UT_rasterized", g=2, L=2))
